@@ -207,6 +207,8 @@ func mergeConfigList(configs [][]byte, f *feature) (string, error) {
 			}
 			if !ebpfSupport {
 				_ = plugin.Delete("eniip_virtual_type")
+				// bandwidth_mode is only decided on the eBPF path, do not pass an input value through
+				_ = plugin.Delete("bandwidth_mode")
 			} else {
 				switch strings.ToLower(virtualType) {
 				case dataPathVeth, dataPathDefault:
